@@ -21,6 +21,8 @@ var checks = map[string]func(job *Job, r *Report){
 	"C04": C04,
 	"C05": C05,
 	"C17": C17,
+	"C11": C11,
+	"C12": C12,
 }
 
 // Main is the entry point of vworker.
